@@ -1,6 +1,240 @@
 #!/usr/bin/env python3
-"""Kani units (stub, filled in below)."""
+"""Kani units: harness crates under kani/<unit>/ that depend on the REAL crates of /repo by path.
+
+unit.json:
+  {"crate_dir": "harness", "bounded": true|false, "bounds": "...",
+   "harnesses": [{"name": "...", "props": ["C08","C09"], "tier": "quick"|"thorough", "default_tags": [...],
+                  "bounded": true, "bounds": "..."}],
+   "timeout_s": 900, "jobs": 4, "extra_args": [...]}
+
+A failed check is attributed to the properties named at the start of its assertion message
+(`assert!(c, "C09 ...")`); checks without ids (panics, overflow, index) get the harness' default_tags.
+"""
+import hashlib
+import json
+import os
+import re
+import shutil
+import subprocess
+import time
+
+
+def _slug(desc):
+    words = re.findall(r"[A-Za-z0-9]+", re.sub(r"\bC\d+\b", "", desc).lower())
+    return "-".join(words[:7]) or "check"
+
+
+def prepare_crate(root, repo, name, cfg, work):
+    udir = os.path.join(root, "kani", name)
+    crate_src = os.path.join(udir, cfg.get("crate_dir", "harness"))
+    crate = os.path.join(work, "crate")
+    shutil.rmtree(crate, ignore_errors=True)
+    shutil.copytree(crate_src, crate, ignore=shutil.ignore_patterns("target", "Cargo.toml"))
+    tin = open(os.path.join(crate_src, "Cargo.toml.in")).read()
+    open(os.path.join(crate, "Cargo.toml"), "w").write(tin.replace("@REPO@", os.path.abspath(repo)).replace("@UNIT@", udir))
+    # in-crate harness modules: verbatim copy of a real source file + appended #[cfg(kani)] module
+    for spec in cfg.get("assemble", []):
+        src = open(os.path.join(repo, spec["source"])).read()
+        extra = open(os.path.join(udir, spec["append"])).read()
+        dst = os.path.join(crate, spec["dest"])
+        os.makedirs(os.path.dirname(dst), exist_ok=True)
+        open(dst, "w").write(src + "\n// ---- appended by /verif (harness only; the text above is the real file, verbatim) ----\n" + extra)
+    return crate
+
+
+def target_dir(root, name, repo):
+    tag = hashlib.sha1(os.path.abspath(repo).encode()).hexdigest()[:8]
+    d = os.path.join(root, "work", "kani-target", "%s-%s" % (name, tag))
+    os.makedirs(d, exist_ok=True)
+    return d
+
+
 def run_kani_unit(root, repo, us, prop, tier, seed, work):
-    raise SystemExit("kani units not built yet")
+    name = us["name"]
+    udir = os.path.join(root, "kani", name)
+    cfg = json.load(open(os.path.join(udir, "unit.json")))
+    r = dict(unit="kani/" + name, kind="kani", status="undecided", reason="", failed=[], obligations=0, discharged=0,
+             functions=cfg.get("functions_under_contract", []), assumptions=[], notes=[],
+             bounded=bool(cfg.get("bounded", True)), bounds=cfg.get("bounds", ""),
+             wall_s=0.0, solver_ms=0, cfg=cfg, checker_cmd="", samples=[], guards={}, harnesses=[],
+             evaluations=0, distinct_nontrivial=0)
+    t0 = time.time()
+    os.makedirs(work, exist_ok=True)
+    hs = [h for h in cfg["harnesses"] if prop in h["props"] and (h.get("tier", "quick") == "quick" or tier == "thorough")]
+    if us.get("only"):
+        hs = [h for h in hs if h["name"] in us["only"]]
+    if not hs:
+        r["reason"] = "no harness of unit %s serves %s" % (name, prop)
+        return r
+    try:
+        crate = prepare_crate(root, repo, name, cfg, work)
+    except OSError as e:
+        r["reason"] = "cannot assemble harness crate: %s" % e
+        return r
+    tdir = target_dir(root, name, repo)
+    export = os.path.join(work, "kani-export.json")
+    env = dict(os.environ, CARGO_NET_OFFLINE="true", CARGO_TARGET_DIR=tdir)
+    timeout = cfg.get("timeout_s", 900) * (3 if tier == "thorough" else 1)
+
+    def invoke(names, playback_mode, exp, tmo):
+        args = ["cargo", "kani"]
+        for n in names:
+            args += ["--harness", n]
+        if playback_mode:
+            args += ["-Z", "concrete-playback", "--concrete-playback=print"]
+        else:
+            args += ["-j", str(min(len(names), cfg.get("jobs", 4)))]
+        args += ["--output-format", "terse", "-Z", "unstable-options", "--export-json", exp]
+        args += cfg.get("extra_args", [])
+        try:
+            p = subprocess.run(args, cwd=crate, env=env, capture_output=True, text=True, timeout=tmo)
+            return args, p.stdout + "\n" + p.stderr
+        except subprocess.TimeoutExpired:
+            subprocess.run(["pkill", "-f", tdir], capture_output=True)
+            return args, None
+
+    args, out = invoke([h["name"] for h in hs], False, export, timeout)
+    r["checker_cmd"] = "cd kani/%s/<crate> && CARGO_NET_OFFLINE=true %s" % (name, " ".join(args).replace(export, "<export.json>"))
+    if out is None:
+        r["reason"] = "cargo kani timed out after %d s (undecided)" % timeout
+        r["wall_s"] = time.time() - t0
+        return r
+    open(os.path.join(work, "kani.log"), "w").write(out)
+    if not os.path.exists(export):
+        r["reason"] = "cargo kani produced no result file (build error?): " + out[-1500:]
+        r["wall_s"] = time.time() - t0
+        return r
+    ex = json.load(open(export))
+    playback = {}
+    failing = [x["harness_id"].split("::")[-1] for x in ex.get("verification_results", {}).get("results", [])
+               if any(c.get("status", "").upper() == "FAILURE" and "unwinding assertion" not in c.get("description", "")
+                      for c in x.get("checks", []))]
+    if failing:
+        # second, sequential run of the failing harnesses only, asking CBMC for concrete counterexamples
+        # (time-boxed: a violation is reported with or without a failing input)
+        _, out2 = invoke(failing[:2], True, os.path.join(work, "kani-export-playback.json"), cfg.get("playback_timeout_s", 900))
+        if out2:
+            open(os.path.join(work, "kani-playback.log"), "w").write(out2)
+            playback = parse_playback(out2)
+        else:
+            r["notes"].append("counterexample extraction timed out")
+    by_h = {x["harness_id"].split("::")[-1]: x for x in ex.get("verification_results", {}).get("results", [])}
+    stats = {x["harness_id"].split("::")[-1]: x for x in ex.get("cbmc", [])}
+    hmeta = {h["name"]: h for h in hs}
+    undecided = []
+    for h in hs:
+        res = by_h.get(h["name"])
+        if res is None:
+            undecided.append("%s: no result" % h["name"])
+            continue
+        checks = res.get("checks", [])
+        nfail = nok = nund = nreach = 0
+        for c in checks:
+            st = c.get("status", "").upper()
+            desc = c.get("description", "")
+            if st == "SUCCESS":
+                nok += 1
+            elif st == "UNREACHABLE":
+                nreach += 1
+            elif st == "FAILURE":
+                nfail += 1
+                if "unwinding assertion" in desc:
+                    undecided.append("%s: unwinding bound too small (%s)" % (h["name"], c.get("function", "")))
+                    continue
+                tm = re.match(r"^[\s\"]*((?:C\d+\s+)+)", desc + " ")
+                tags = re.findall(r"C\d+", tm.group(1)) if tm else []
+                if not tags:
+                    tags = h.get("default_tags", h["props"])
+                oid = "kani/%s:%s:%s" % (name, h["name"], _slug(desc))
+                pb = playback.get((h["name"], desc.strip('"')))
+                loc = "%s:%s" % (c.get("file", c.get("location", {}).get("file", "")), c.get("line", ""))
+                r["failed"].append(dict(id=oid, function=h["name"], message=desc.strip('"'), clause="", tags=tags,
+                                        output="Kani/CBMC: check FAILED in harness %s\n  description: %s\n  function: %s\n  location: %s\n" % (
+                                            h["name"], desc, c.get("function", ""), json.dumps(c.get("location", loc))),
+                                        counterexample=(pb and pb["values_comment"]) or None,
+                                        replay_test=(pb and dict(unit=name, harness=h["name"], test_name=pb["name"], code=pb["code"])) or None))
+            else:
+                nund += 1
+        if nund and not nfail:
+            undecided.append("%s: %d checks undetermined" % (h["name"], nund))
+        cs = stats.get(h["name"], {}).get("cbmc_stats", {})
+        solver_s = sum(float(cs.get(k, 0) or 0) for k in ("runtime_symex_s", "runtime_convert_ssa_s", "runtime_solver_s",
+                                                           "runtime_decision_procedure_s", "runtime_post_process_s"))
+        r["solver_ms"] += int(solver_s * 1000)
+        r["obligations"] += nok + nfail + nund
+        r["discharged"] += nok
+        r["evaluations"] += 1
+        if nok > 0:
+            r["distinct_nontrivial"] += 1
+        r["harnesses"].append(dict(name=h["name"], status=res.get("status"), checks=len(checks), passed=nok, failed=nfail,
+                                   unreachable=nreach, undetermined=nund, bounded=h.get("bounded", cfg.get("bounded", True)),
+                                   bounds=h.get("bounds", cfg.get("bounds", "")), duration_ms=res.get("duration_ms"),
+                                   vccs=cs.get("vccs_generated")))
+        r["samples"].append(dict(obligation="harness %s: %d/%d checks passed (%s)" % (
+            h["name"], nok, nok + nfail + nund, "bounded: " + h.get("bounds", cfg.get("bounds", "")) if h.get("bounded", cfg.get("bounded", True)) else "loop-free, full domain"),
+            ms=res.get("duration_ms")))
+        # vacuity guard: a harness with (almost) no reachable checks proves nothing
+        if nok + nfail < h.get("min_checks", 10):
+            undecided.append("%s: vacuity guard, only %d reachable checks" % (h["name"], nok + nfail))
+    r["guards"]["harnesses_run"] = len(r["harnesses"])
+    if r["failed"]:
+        r["status"] = "fail"
+    elif undecided:
+        r["status"] = "undecided"
+        r["reason"] = "; ".join(undecided[:6])
+    else:
+        r["status"] = "pass"
+    if undecided and r["failed"]:
+        r["notes"] += undecided
+    r["wall_s"] = time.time() - t0
+    return r
+
+
+def parse_playback(out):
+    """Concrete playback tests printed by Kani: {(harness, check description): dict(name, code, values_comment)}"""
+    res = {}
+    for m in re.finditer(r"Concrete playback unit test for `([^`]+)`:\s*```\n(.*?)```", out, re.S):
+        harness = m.group(1).split("::")[-1]
+        code = m.group(2)
+        dm = re.search(r"Check for `[^`]*`: \"\"?(.*?)\"?\"\s*$", code, re.M)
+        desc = dm.group(1).strip('"') if dm else ""
+        nm = re.search(r"fn (kani_concrete_playback_\w+)\(", code)
+        vals = re.findall(r"^\s*// (.+)$", code, re.M)
+        res[(harness, desc)] = dict(name=nm.group(1) if nm else "", code=code,
+                                    values_comment="kani::any() values in draw order: " + ", ".join(vals))
+    return res
+
+
 def run_replay_test(root, repo, d):
-    raise SystemExit("kani units not built yet")
+    """Replay a Kani counterexample natively against the real crate: `cargo kani playback`."""
+    rt = d["replay_test"]
+    name = rt["unit"]
+    udir = os.path.join(root, "kani", name)
+    cfg = json.load(open(os.path.join(udir, "unit.json")))
+    work = os.path.join(root, "work", "replay-%d" % os.getpid())
+    shutil.rmtree(work, ignore_errors=True)
+    os.makedirs(work)
+    try:
+        crate = prepare_crate(root, repo, name, cfg, work)
+        lib = os.path.join(crate, cfg.get("playback_file", "src/lib.rs"))
+        s = open(lib).read()
+        if "// @PLAYBACK@" not in s:
+            print("harness crate has no playback anchor")
+            return 2
+        open(lib, "w").write(s.replace("// @PLAYBACK@", rt["code"] + "\n// @PLAYBACK@"))
+        env = dict(os.environ, CARGO_NET_OFFLINE="true", CARGO_TARGET_DIR=target_dir(root, name + "-playback", repo))
+        p = subprocess.run(["cargo", "kani", "playback", "-Z", "concrete-playback", "--", rt["test_name"]],
+                           cwd=crate, env=env, capture_output=True, text=True, timeout=1200)
+        out = p.stdout + p.stderr
+        print(out[-3000:])
+        if re.search(r"test result: FAILED|panicked at", out):
+            print("REPLAY: the counterexample reproduces on the real code (harness %s)" % rt["harness"])
+            print("VIOLATION property=%s replay=%s" % (d["property"], "(replayed)"))
+            return 1
+        if "test result: ok" in out:
+            print("REPLAY: the counterexample no longer reproduces")
+            return 0
+        print("REPLAY: could not run the playback test")
+        return 2
+    finally:
+        shutil.rmtree(work, ignore_errors=True)
